@@ -62,6 +62,25 @@ def check_case(case, info=None):
     if not all(pc.close(a, b, ev.numeric) for a, b in zip(sorted(got, reverse=True), want)):
         fails.append((f'{PROPERTY}/topk-scores', f'returned scores {got}; the {len(got)} largest scores over all '
                       f'{total} derivations are {want}'))
+    # every sentence of a call gets the same answer: the sentence repeated R times in one call, under the library's
+    # default step budget (only when k derivations exist, so that the n-best search stops at the k-th goal)
+    R = int(case.get('repeat') or 0)
+    if R and total >= k and not fails:
+        caseR = dict(case, config=dict(case['config'], max_step=10000000))
+        try:
+            resR, _, _ = native.run_parser(caseR, ev.grammar, sentences=[ev.sent] * R, max_chunk_size=R + 1)
+        except Exception as ex:
+            resR = None
+            fails.append((f'{PROPERTY}/repeated-in-one-call/raises/{type(ex).__name__}', f'{R} copies in one call: {ex}'))
+        if resR is not None:
+            for pos, r in enumerate(resR):
+                if [repr(native.snap(st.tree)) for st in r] != snaps or [float(st.score) for st in r] != got:
+                    fails.append((f'{PROPERTY}/repeated-in-one-call/differs',
+                                  f'copy {pos + 1} of {R} in one call (k={k}) gives {len(r)} tree(s) with scores '
+                                  f'{[float(st.score) for st in r]}; the sentence alone gives {got}'))
+                    break
+        if info is not None:
+            info['repeated'] = R
     # the first one is the 1-best answer's score
     case1 = dict(case, config=dict(case['config'], nbest=1))
     ev1 = pc.evaluate(case1)
@@ -88,6 +107,8 @@ def build_case(data, mode, nmax):
     else:
         case = gen_sent.t_real_case(t, t.pick(['en', 'ja']), n_max=4, nbest_max=6, beam='off')
         case['config']['pruning_size'] = t.int(1, 3)
+    if case['config']['nbest'] >= 2 and t.tail(10) % 6 == 0:
+        case['repeat'] = 26 + t.tail(11) % 10
     return case
 
 
